@@ -39,7 +39,7 @@ NativeChild(gl, gu, bf) ==
   IN IF gu = t THEN bf
      ELSE IF gu > t THEN bf + NMax(((bf * (gu - t)) \div t) \div 8, 1)
      ELSE NMax(bf - ((bf * (t - gu)) \div t) \div 8, Floor)
-SmallOK == \A gl \in 100..140 : \A gu \in 0..gl : \A bf \in {100, 101, 107, 250, 1000, 4321} :
+SmallOK == \A gl \in 100..116 : \A gu \in 0..gl : \A bf \in {100, 107, 250, 4321} :
               ChildBaseFeeF(FromInt(gl), FromInt(gu), FromInt(bf), FromInt(Floor)) = FromInt(NativeChild(gl, gu, bf))
 ASSUME SmallOK
 
